@@ -10,8 +10,11 @@ Oracle (nothing else): tokenize_deb822_file(lines) and parse_deb822_file(lines, 
 accept_files_with_duplicated_fields=True) do not raise, the token texts concatenate to the expected text and
 .dump() returns the expected text.
 """
+import io
 import itertools
+import os
 import re
+import tempfile
 
 from .. import core
 
@@ -25,7 +28,9 @@ RULE = ("Engine B walk of two input tries.  shapes: a state is a sequence of lin
         "line classes (blank / whitespace-only / comment / indented / with colon / other), i.e. an adjacency of "
         "classes is exercised.  sweep: a state is one (code point, template) document, a transition puts the code point "
         "into the template, a trace is that document in one termination mode (counted apart from shapes / chars, with "
-        "which a few sweep documents coincide).  Outcome classes = sequence of top-level parts of the parsed file (P paragraph, "
+        "which a few sweep documents coincide).  routes: a state is one document of the short shape / character spaces, a trace "
+        "is that document taken through every other documented kind of input, flag combination and way of writing it out (one "
+        "evaluation per document).  Outcome classes = sequence of top-level parts of the parsed file (P paragraph, "
         "W whitespace, C comment, E error) or the exception class; extra = adjacent token-kind pairs seen.")
 BUDGET = {"quick": 240, "thorough": 3000}
 
@@ -65,7 +70,23 @@ def _depths(tier):
 
 def bounds(tier):
     n, nc, m = _depths(tier)
-    return dict(_bounds(tier), recovery="every shape sequence of length <= 2 (terminated / open last line) parsed right after each of %d aborted parses (mixed termination, undecodable bytes, failing iterator, strict-mode rejections)" % len(aborts()))
+    return dict(_bounds(tier), routes=_routes_bounds(tier), recovery="every shape sequence of length <= 2 (terminated / open last line) parsed right after each of %d aborted parses (mixed termination, undecodable bytes, failing iterator, strict-mode rejections)" % len(aborts()))
+
+
+def _route_depths(tier):
+    # (full shape alphabet max length, core alphabet length, character level max length) of the routes pass
+    return {"quick": (2, 3, 4), "thorough": (3, 4, 6)}[tier]
+
+
+def _routes_bounds(tier):
+    n, nc, m = _route_depths(tier)
+    return ("the other ways in and out, each against the same expected text: input as %s; flag combinations other than the "
+            "accepting mode (may refuse with ValueError exactly when the accepting parse shows an error element / a paragraph "
+            "with a repeated field, otherwise lossless); output through %s; a second dump, a dump after every field has been "
+            "read in every way, two documents tokenized in lock-step; on all shape sequences of length <= %d and character "
+            "strings of length <= %d, every termination mode the input kind can express; everything but the input kinds also "
+            "on the core sequences of length %d"
+            % (", ".join(INPUT_KINDS), ", ".join(OUTPUT_ROUTES), n, m, nc))
 
 
 def _bounds(tier):
@@ -96,6 +117,15 @@ def assumptions():
         "sweep: the only code point left out is \\n (the statement: no newline inside a line); \\r, \\x0b, \\x0c, "
         "\\x1c-\\x1e, \\x85, U+2028 and U+2029 are ordinary text here - lines are given to the parser as a list and the "
         "module never cuts with str.splitlines",
+        "routes: file objects cut their content into lines themselves, so they are given documents in which every line "
+        "but possibly the last is terminated; a text-mode file object (newline='') also cuts at \\r, so documents containing "
+        "\\r are not given to it",
+        "routes: with accept_files_with_error_tokens / accept_files_with_duplicated_fields left at False the parser may "
+        "refuse (ValueError) exactly the documents in which the accepting parse shows an error element / a paragraph with "
+        "a repeated field name (the parameters' documentation); whatever it returns must dump to the input",
+        "routes: reading fields between parse and dump may raise on odd documents (not judged here); only the dump "
+        "afterwards is",
+        "routes: copy.copy / copy.deepcopy / pickle of a parsed file are not documented and not driven",
     ]
 
 
@@ -289,6 +319,226 @@ def execute(lines, part=None):
     return bad
 
 
+# ------------------------------------------------------------------------------------------------ routes
+
+INPUT_KINDS = ("tuple", "bytes-list", "bytes-generator", "binary file object", "text file object", "real binary file",
+               "real text file", "collections.deque")
+OUTPUT_ROUTES = ("dump(fd)", "convert_to_text()", "iter_tokens()", "iter_parts()", "iter_recurse() tokens",
+                 "per-part dump()/convert_to_text()")
+OTHER_DOC = ["B: x\n", " y\n", "\n", "#c\n", "junk\n", "A:\n"]
+
+
+def _inputs(lines, scratch):
+    """(kind, factory) for every other documented way of handing the same lines to the library"""
+    import collections
+    text = "".join(lines)
+    out = [("tuple", lambda: tuple(lines)), ("deque", lambda: collections.deque(lines))]
+    try:
+        blines = [l.encode("utf-8") for l in lines]
+    except UnicodeEncodeError:
+        return out
+    out += [("bytes-list", lambda: list(blines)), ("bytes-generator", lambda: (b for b in blines))]
+    if mode_of(lines) != "no-nl" and lines:
+        data = text.encode("utf-8")
+        out.append(("binary-file-object", lambda: io.BytesIO(data)))
+
+        def real_binary():
+            with open(os.path.join(scratch, "doc"), "wb") as fd:
+                fd.write(data)
+            return open(os.path.join(scratch, "doc"), "rb")
+        out.append(("real-binary-file", real_binary))
+        if "\r" not in text:
+            out.append(("text-file-object", lambda: io.StringIO(text, newline="")))
+
+            def real_text():
+                with open(os.path.join(scratch, "doc"), "wb") as fd:
+                    fd.write(data)
+                return open(os.path.join(scratch, "doc"), "r", encoding="utf-8", newline="")
+            out.append(("real-text-file", real_text))
+    return out
+
+
+def _read_everything(f):
+    """every read-only way of looking at a parsed file; what it returns or raises is not judged here"""
+    from debian._deb822_repro import LIST_SPACE_SEPARATED_INTERPRETATION as WS
+    for probe in (lambda: f.is_valid_file, f.find_first_error_element, lambda: len(list(f))):
+        try:
+            probe()
+        except Exception:
+            pass
+    for p in f:
+        views = [p, p.configured_view(discard_comments_on_read=False, auto_map_initial_line_whitespace=False,
+                                      auto_map_final_newline_in_multiline_values=False), p.as_interpreted_dict_view(WS)]
+        for v in views:
+            try:
+                for k in list(v.keys()):
+                    x = v[k]
+                    if v is views[2]:
+                        list(x)
+                v.get("zz-absent")
+                len(v)
+                "a" in v
+            except Exception:
+                pass
+        try:
+            for kv in p.iter_parts():
+                kv.field_name
+                kv.value_element.convert_to_text()
+                kv.comment_element and kv.comment_element.convert_to_text()
+            p.has_duplicate_fields
+            p.dump()
+        except Exception:
+            pass
+
+
+def execute_routes(lines, scratch, inputs=True):
+    """the same document through the other entry points (unless inputs=False) and exits.
+    -> list of (sig, expected, observed)"""
+    from debian._deb822_repro.parsing import parse_deb822_file, Deb822ParagraphElement, Deb822DuplicateFieldsParagraphElement
+    from debian._deb822_repro.tokens import tokenize_deb822_file, Deb822Token
+    exp = expected_text(lines)
+    mode = mode_of(lines)
+    bad = []
+    acc = dict(accept_files_with_error_tokens=True, accept_files_with_duplicated_fields=True)
+
+    def note(sig, want, got):
+        bad.append(("via-%s/%s" % (sig, mode), want, got))
+
+    # --- input kinds
+    for kind, mk in (_inputs(lines, scratch) if inputs else ()):
+        for what in ("tokenize", "parse"):
+            src = mk()
+            try:
+                if what == "tokenize":
+                    got = "".join(t.text for t in tokenize_deb822_file(src))
+                else:
+                    got = parse_deb822_file(src, **acc).dump()
+            except Exception as e:
+                note("%s/%s/raises/%s" % (kind, what, _exc_sig(e)), exp, "%s: %s" % (type(e).__name__, e))
+                continue
+            finally:
+                if hasattr(src, "close"):
+                    src.close()
+            if got != exp:
+                note("%s/%s/%s" % (kind, what, _diff_kind(exp, got)), exp, got)
+    # --- the reference parse, then every way out of it
+    try:
+        f = parse_deb822_file(list(lines), **acc)
+        d = f.dump()
+    except Exception:
+        return bad          # (reported by the main walk)
+    if d != exp:
+        return bad
+    outs = []
+    try:
+        b = io.BytesIO()
+        f.dump(b)
+        outs.append(("dump-fd", b.getvalue(), exp.encode("utf-8")))
+        outs.append(("convert-to-text", f.convert_to_text(), exp))
+        outs.append(("iter-tokens", "".join(t.text for t in f.iter_tokens()), exp))
+        outs.append(("iter-parts", "".join(x.convert_to_text() for x in f.iter_parts()), exp))
+        outs.append(("iter-recurse", "".join(t.text for t in f.iter_recurse(only_element_or_token_type=Deb822Token)), exp))
+        pieces = []
+        for x in f.iter_parts():
+            if isinstance(x, Deb822ParagraphElement):
+                pb = io.BytesIO()
+                x.dump(pb)
+                if pb.getvalue().decode("utf-8") != x.dump():
+                    outs.append(("paragraph-dump-fd", pb.getvalue().decode("utf-8"), x.dump()))
+                pieces.append(x.dump())
+            else:
+                pieces.append(x.convert_to_text())
+        outs.append(("part-dumps", "".join(pieces), exp))
+        outs.append(("second-dump", f.dump(), exp))
+        _read_everything(f)
+        outs.append(("dump-after-reading", f.dump(), exp))
+    except Exception as e:
+        note("output/raises/%s" % _exc_sig(e), exp, "%s: %s" % (type(e).__name__, e))
+    for name, got, want in outs:
+        if got != want:
+            note("%s/%s" % (name, _diff_kind(want, got) if isinstance(got, str) else "bytes-differ"), want, got)
+    # --- the other flag combinations
+    has_error = f.find_first_error_element() is not None
+    has_dup = any(isinstance(p, Deb822DuplicateFieldsParagraphElement) and
+                  len({str(k).lower() for k in p.keys()}) < len(list(p.keys())) for p in f)
+    for e_flag, d_flag in ((False, False), (True, False), (False, True)):
+        name = "flags-errors-%s-duplicates-%s" % ("ok" if e_flag else "refused", "ok" if d_flag else "refused")
+        may_refuse = (has_error and not e_flag) or (has_dup and not d_flag)
+        try:
+            got = parse_deb822_file(list(lines), accept_files_with_error_tokens=e_flag,
+                                    accept_files_with_duplicated_fields=d_flag).dump()
+        except ValueError as e:
+            if not may_refuse:
+                note(name + "/refuses-a-clean-document", exp, "ValueError: %s" % e)
+            continue
+        except Exception as e:
+            note("%s/raises/%s" % (name, _exc_sig(e)), exp, "%s: %s" % (type(e).__name__, e))
+            continue
+        if got != exp:
+            note("%s/%s" % (name, _diff_kind(exp, got)), exp, got)
+        elif may_refuse:
+            note(name + "/accepts-what-it-should-refuse", "ValueError", got)
+    # --- two documents tokenized in lock-step (every token stream is a generator with its own state)
+    try:
+        a, b = tokenize_deb822_file(list(lines)), tokenize_deb822_file(list(OTHER_DOC))
+        ta, tb = [], []
+        for x, y in itertools.zip_longest(a, b):
+            if x is not None:
+                ta.append(x.text)
+            if y is not None:
+                tb.append(y.text)
+        if "".join(ta) != exp or "".join(tb) != "".join(OTHER_DOC):
+            note("lock-step-tokenizers/" + _diff_kind(exp, "".join(ta)), (exp, "".join(OTHER_DOC)), ("".join(ta), "".join(tb)))
+    except Exception as e:
+        note("lock-step-tokenizers/raises/%s" % _exc_sig(e), exp, "%s: %s" % (type(e).__name__, e))
+    return bad
+
+
+def _route_docs(which, L, pre, seed):
+    if which == "chars":
+        al = alphabet(seed)
+        for rest in itertools.product(al, repeat=L):
+            yield cut("".join(rest))
+        return
+    sh = shapes(seed)
+    idx = list(range(len(sh))) if which == "full" else list(CORE_IDX)
+    head = [] if pre is None else [idx[pre]]
+    for rest in itertools.product(idx, repeat=L - len(head)):
+        seq = [sh[i] for i in head + list(rest)]
+        for mode in MODES:
+            if mode == "open-last" and seq[-1] == "":
+                continue            # domain: an empty unterminated line is not a line
+            if mode == "no-nl" and L < 2:
+                continue            # a single unterminated line is the open-last case
+            yield lines_for(seq, mode)
+
+
+def unit_routes(part, which, L, pre, tier, seed):
+    import shutil
+    scratch = tempfile.mkdtemp(prefix="c01-routes-")
+    try:
+        for lines in _route_docs(which, L, pre, seed):
+            part.states += 1
+            part.transitions += 1
+            part.traces += 1
+            part.evaluations += 1
+            if _nontrivial(lines):
+                part.nontrivial += 1
+            # the kinds of input differ in how a line reaches the tokenizer, not in how lines combine: they are driven on
+            # the full-alphabet and character-level documents; the longer core sequences are for the ways out
+            inputs = which != "core"
+            bad = execute_routes(lines, scratch, inputs)
+            part.outcomes["routes/" + ("violation" if bad else mode_of(lines))] += 1
+            for sig, exp, obs in bad:
+                part.violation(sig, {"space": "routes", "mode": mode_of(lines), "lines": lines, "inputs": inputs}, exp, obs,
+                               rank=len(lines))
+        part.sample({"space": "routes", "mode": "nl", "lines": ["A: b\n", " c\n"]})
+    finally:
+        shutil.rmtree(scratch, ignore_errors=True)
+    part.max_depth = L
+    return part
+
+
 def _line_class(body):
     if body == "":
         return 0
@@ -399,11 +649,21 @@ def units(tier, seed):
         out.append(("sweep", "", lo, min(lo + SWEEP_CHUNK, ncp)))
     for ai in range(len(aborts())):
         out.append(("recover", "", ai, ()))
+    rn, rnc, rm = _route_depths(tier)
+    for L in range(1, rn + 1):
+        for pre in (range(ns) if L > 1 else [None]):
+            out.append(("routes", "full", L, pre))
+    for pre in range(len(CORE_IDX)):
+        out.append(("routes", "core", rnc, pre))
+    for L in range(0, rm + 1):
+        out.append(("routes", "chars", L, None))
     return out
 
 
 def unit_cost(u, tier):
     space, which, L, pre = u
+    if space == "routes":
+        return 40 * (6 ** L if which == "chars" else 3 * (len(shapes(0)) if which == "full" else len(CORE_IDX)) ** (L - (pre is not None and L > 1)))
     if space == "sweep":
         return (pre - L) * len(SWEEP_TEMPLATES) * 3 * 2
     if space == "recover":
@@ -421,6 +681,8 @@ def run_unit(u, tier, seed):
         return unit_sweep(part, L, pre)
     if space == "recover":
         return unit_recover(part, L, seed)
+    if space == "routes":
+        return unit_routes(part, which, L, pre, tier, seed)
     part.max_depth = L
     if space == "shapes":
         sh = shapes(seed)
@@ -469,12 +731,23 @@ def replay(case):
     if case.get("space") == "recover":
         do_abort(case["abort"])
         return [("after-aborted-parse/" + b[0],) + tuple(b[1:]) for b in execute(lines)]
+    if case.get("space") == "routes":
+        scratch = tempfile.mkdtemp(prefix="c01-routes-")
+        try:
+            return execute_routes(lines, scratch, case.get("inputs", True))
+        finally:
+            import shutil
+            shutil.rmtree(scratch, ignore_errors=True)
     return execute(lines)
 
 
 def repro_py(case):
     lines = list(case["lines"])
-    return ("from debian._deb822_repro import parse_deb822_file\n"
+    note = ""
+    if case.get("space") == "routes":
+        note = ("# routes case: the signature names the entry point (input kind / flag combination) or the exit (dump(fd), "
+                "convert_to_text(), ...)\n# that disagrees; mc/props/c01.py execute_routes() runs them all on these lines\n")
+    return (note + "from debian._deb822_repro import parse_deb822_file\n"
             "from debian._deb822_repro.tokens import tokenize_deb822_file\n"
             "lines = %r\nexpected = %r\n"
             "assert ''.join(t.text for t in tokenize_deb822_file(list(lines))) == expected\n"
